@@ -173,6 +173,9 @@ def v3_tables(tier, seed, minor):
         tabs.append(header("3", minor, baseU, mod[5:] + req27, mod[:5]))
         tabs.append(header("3", minor, baseC, mod[5:] + req27, mod[:5]))
         tabs.append(header("3", minor, {}, cia + req64, b5))
+    # the exploitability metrics and Scope as the *inner* dimensions under every spelling of Modified Scope (absent, X, U, C) and three
+    # requirement triples: steps of S (and AV, AC, PR, UI) while MS stays fixed - with MS given, the environmental score may not depend on S
+    tabs.append(header("3", minor, {}, cia + [dim("3", "MS", absent=True), tuple_dim("R", ["CR", "IR", "AR"], [("-", "-", "-"), ("L", "L", "L"), ("H", "M", "L")])], b5))
     return tabs
 
 
